@@ -201,3 +201,13 @@ class PatternModel:
         return [Res(st, VOpaque(z3.If(hit, fresh("match_obj", U), U_NONE)))]
 
     methods = {"match": m_match}
+
+
+@R.lemma("C15:storage-frame", props=("C15",))
+def storage_frame(E):
+    """the name server's storage is touched only by the seven public operations under contract (each under self.lock, in one critical section), by the constructor,
+    and by the closing of the name server daemon (storage.close()); `main` only passes a command line option of the same name on"""
+    from contracts.frames import frame_obligations
+    N = "Pyro5/nameserver.py:NameServer."
+    frame_obligations(E, "name server", {"storage": {N + "__init__", N + "count", N + "lookup", N + "register", N + "set_metadata", N + "remove", N + "list", N + "yplookup",
+                                                      "Pyro5/nameserver.py:NameServerDaemon.__exit__", "Pyro5/nameserver.py:NameServerDaemon.close", "Pyro5/nameserver.py:main"}})
